@@ -17,7 +17,8 @@
 //	     selector: nil | - (present, no labels) | k=v,k=v     mtls: nil|UNSET|DISABLE|PERMISSIVE|STRICT
 //	     ports: - | 80:STRICT,8080:nil,...
 //	q <ns> <labels> <svcNs> <ports>                      -> M=.. PP=.. Q=.. NS=.. G=.. BE=.. CFG=..
-//	chk <ns> <labels> <port> <epTLS 0|1> <dr>            -> 0|1        dr: nil|DISABLE|SIMPLE|MUTUAL|ISTIO_MUTUAL
+//	chk <ns> <labels> <port> <epTLS 0|1> <dr> <clientNs> <importedNs> <waypoint 0|1>
+//	                                                     -> 0|1 BE=.. NS=..   (on the client's filtered view) dr: nil|DISABLE|SIMPLE|MUTUAL|ISTIO_MUTUAL
 //	cv <i> <j|-> <k|->                                   -> convertPeerAuthentication(pas[i], pas[j], pas[k]) (direct)
 //	ks <i,j,...>                                         -> convertedSelectorPeerAuthentications([pas[i],...]) (direct)
 //	go <i,j,...>                                         -> getOldestPeerAuthn([pas[i],...]) (direct)
@@ -207,11 +208,11 @@ func (s *sut) apply(f []string) (out string) {
 		}
 		return s.query(wire.Dec(f[1]), parseLabels(f[2]), wire.DecList(f[3]), parsePortList(f[4]))
 	case "chk":
-		if len(f) != 6 {
+		if len(f) != 9 {
 			return "bad-op"
 		}
 		p, _ := strconv.ParseUint(f[3], 10, 32)
-		return wire.B(s.check(wire.Dec(f[1]), parseLabels(f[2]), uint32(p), f[4] == "1", f[5]))
+		return s.check(wire.Dec(f[1]), parseLabels(f[2]), uint32(p), f[4] == "1", f[5], wire.Dec(f[6]), wire.DecList(f[7]), f[8] == "1")
 	case "cv":
 		if len(f) != 4 {
 			return "bad-op"
@@ -231,7 +232,12 @@ func (s *sut) apply(f []string) (out string) {
 		if len(f) != 3 {
 			return "bad-op"
 		}
-		return s.inboundListener(wire.Dec(f[1]), parseLabels(f[2]))
+		return s.inboundListener(wire.Dec(f[1]), parseLabels(f[2]), nil)
+	case "ils":
+		if len(f) != 4 {
+			return "bad-op"
+		}
+		return s.inboundListener(wire.Dec(f[1]), parseLabels(f[2]), parseIngress(f[3]))
 	case "aq":
 		if len(f) != 4 {
 			return "bad-op"
